@@ -363,6 +363,31 @@ def gen_case(rng, tier='quick', threads=False):
             steps[at:at] = [{'kind': 'configvars'},
                             {'kind': 'add', 'in': [], 'set': 'vs', 'addMe': rng.randint(10, 19)}]
         case[pname] = steps
+    if (not threads) and rng.random() < 0.12:
+        # pypyr.steps.pype with pipeArg: the child's list parser binds argList to the list pype split
+        # from the text; the child grows it in place; the same text is pyped again (re-runs of main,
+        # the other parent, a second foreach iteration)
+        case['file_loader'] = None
+        g = Gen(rng, True)
+        g.known, g.types = ['argList'], {'argList': 'l'}
+        g.no_foreach = rng.random() < 0.7
+        child = [g.step() for _ in range(rng.randint(0, 2))]
+        child = [st for st in child if st['kind'] not in ('configvars',)]
+        how = rng.choice(['append', 'py', 'merge'])
+        if how == 'append':
+            m = {'kind': 'append', 'in': [], 'list': 'argList', 'mode': rng.choice(['key', 'py']), 'addMe': rng.randint(0, 9)}
+        elif how == 'py':
+            m = {'kind': 'py', 'in': [], 'code': ['append', 'argList', rng.randint(0, 9)]}
+        else:
+            m = {'kind': 'merge', 'in': [], 'pairs': [['argList', {'l': [rng.randint(0, 9)]}]]}
+        child.insert(rng.randint(0, len(child)), m)
+        case['child'] = child
+        texts = [' '.join(rng.choice(ARG_WORDS) for _ in range(rng.randint(1, 3))) for _ in range(2)]
+        for pname in ('main', 'other') if rng.random() < 0.5 else ('main',):
+            st = {'kind': 'pype', 'in': [], 'pipeArg': rng.choice(texts)}
+            if rng.random() < 0.2:
+                st['foreach'] = [rng.randint(0, 9) for _ in range(2)]
+            case[pname].insert(rng.randint(0, len(case[pname])), st)
     same = threads and rng.random() < 0.5
     if same or ((not threads) and rng.random() < 0.12):
         # a loop step that calls a group (same-pipeline threads: both runs go through the SAME cached step)
